@@ -713,6 +713,10 @@ def rule_d(model, rep):
     rep.minimum(R, 8)
 
 
+from . import c07 as _c07  # noqa: E402
+from .shared import Renamed as _Renamed  # noqa: E402
+
+
 def run(model, rep):
     rep.explanation = __doc__
     rep.assumptions = ["values returned by library calls are not tainted sequences", "ValueError subclasses (UnicodeError, binascii.Error) count as documented errors",
@@ -726,6 +730,9 @@ def run(model, rep):
     rule_h(model, rep)
     rule_i(model, rep)
     rule_j(model, rep)
+    # fields cut at the wrong character let an altered setting through (django_des_crypt's duplicated salt, fixed-offset parsers)
+    _t = HandlerTable(model)
+    _c07.rule_h(model, _Renamed(rep, {"C07.h": "C08.k-slice-offsets"}, "C08.x-"), _t, _c07._handler_pairs(model, _t))
     from . import shared
     shared.falsy_zero_lint(model, rep, "C08.e-zero-is-a-value", lambda un: un.startswith(("passlib.handlers", "passlib.utils.handlers")),
                            lambda un, q: q.split(".")[-1] in ("__init__", "from_string", "parse") or q.split(".")[-1].startswith(("_parse", "_norm")),
